@@ -95,7 +95,7 @@ func (self *BinaryConv) doRecurse(ctx context.Context, s string, jp int, desc *t
 		case types.V_STRING:
 			var str string
 			if v.Ep >= 0 && v.Ep < int64(ret) {
-				str, err = strconv.Unquote(s[v.Iv-1 : ret])
+				str, err = json.Unquote(s[v.Iv : ret-1])
 				if err != nil {
 					return
 				}
@@ -194,7 +194,7 @@ func (self *BinaryConv) doRecurse(ctx context.Context, s string, jp int, desc *t
 
 					var key string
 					if v.Ep >= 0 && v.Ep < int64(ret) {
-						key, err = strconv.Unquote(s[v.Iv-1 : ret])
+						key, err = json.Unquote(s[v.Iv : ret-1])
 						if err != nil {
 							return
 						}
@@ -275,7 +275,7 @@ func (self *BinaryConv) doRecurse(ctx context.Context, s string, jp int, desc *t
 
 					var key string
 					if v.Ep >= 0 && v.Ep < int64(ret) {
-						key, err = strconv.Unquote(s[v.Iv-1 : ret])
+						key, err = json.Unquote(s[v.Iv : ret-1])
 						if err != nil {
 							return
 						}
